@@ -413,27 +413,44 @@ Proof.
 Qed.
 
 (* the checker accepts the model of the current code for EVERY case - source port 0 included, no exemption *)
+Lemma reaches_v_log port0 hs d : reaches_v SLog port0 hs d = true.
+Proof. unfold reaches_v. destruct port0; [reflexivity|apply reaches_log]. Qed.
+
 Theorem port_check_model f port0 sendable hs d :
   port_check f port0 sendable hs d (serve_one_v pcurrent f port0 sendable hs d) = [].
 Proof.
-  rewrite serve_one_v_spec. unfold port_check. cbv zeta.
-  destruct (env_fault_effective f port0 sendable hs d) eqn:Eenv.
-  - assert (Hnd : forall l, existsb is_dead l = false -> filter (fun a => negb (is_dead a)) l = l).
-    { induction l as [|x l IH]; [reflexivity|]. cbn [existsb filter]. intros H. apply orb_false_iff in H as [A B].
-      rewrite A. cbn [negb]. now rewrite IH. }
-    assert (Hd : existsb is_dead (expected_obs f port0 sendable hs d) = false).
-    { unfold expected_obs. pose proof (port_spec_v_ok port0 hs d) as H. cbv zeta.
-      destruct f as [[st e]|]; [destruct (reaches_v st port0 hs d); [reflexivity|]|];
-        inversion H; destruct (negb sendable); reflexivity. }
-    rewrite Hd, (Hnd _ Hd), actions_eqb_refl. reflexivity.
-  - unfold env_fault_effective in Eenv. apply orb_false_iff in Eenv as [E1 E2].
-    unfold expected_obs. cbv zeta. rewrite E2.
-    assert (Hx : match f with Some (st, _) => if reaches_v st port0 hs d then [ALogExc] else port_spec_v port0 hs d ++ []
-                 | None => port_spec_v port0 hs d ++ [] end = port_spec_v port0 hs d).
-    { destruct f as [[st e]|]; [rewrite E1|]; apply List.app_nil_r. }
-    rewrite Hx. pose proof (port_spec_v_ok port0 hs d) as H.
-    inversion H; cbn [existsb is_log is_dead orb filter negb app List.length Nat.leb];
-      rewrite actions_eqb_refl; reflexivity.
+  rewrite serve_one_v_spec.
+  assert (Hgen : (if env_fault_effective f port0 sendable hs d then
+        (if existsb is_dead (expected_obs f port0 sendable hs d) then ["C09:port_stops_serving"%string] else []) ++
+        (if actions_eqb (filter (fun a => negb (is_dead a)) (expected_obs f port0 sendable hs d)) (expected_obs f port0 sendable hs d)
+         then [] else ["C09:port_fault_reaction"%string])
+      else
+        (if existsb is_log (expected_obs f port0 sendable hs d) then ["C09:internal_error_path"%string] else []) ++
+        (if existsb is_dead (expected_obs f port0 sendable hs d) then ["C09:port_stops_serving"%string] else []) ++
+        (if (2 <=? length (filter (fun a => negb (is_log a)) (filter (fun a => negb (is_dead a)) (expected_obs f port0 sendable hs d))))%nat
+         then ["C09:port_more_than_one_reaction"%string] else []) ++
+        (if actions_eqb (filter (fun a => negb (is_log a)) (filter (fun a => negb (is_dead a)) (expected_obs f port0 sendable hs d)))
+                        (port_spec_v port0 hs d) then [] else ["C09:port_reaction"%string])) = []).
+  { destruct (env_fault_effective f port0 sendable hs d) eqn:Eenv.
+    - assert (Hnd : forall l, existsb is_dead l = false -> filter (fun a => negb (is_dead a)) l = l).
+      { induction l as [|x l IH]; [reflexivity|]. cbn [existsb filter]. intros H. apply orb_false_iff in H as [A B].
+        rewrite A. cbn [negb]. now rewrite IH. }
+      assert (Hd : existsb is_dead (expected_obs f port0 sendable hs d) = false).
+      { unfold expected_obs. pose proof (port_spec_v_ok port0 hs d) as H. cbv zeta.
+        destruct f as [[st e]|]; [destruct (reaches_v st port0 hs d); [reflexivity|]|];
+          inversion H; destruct (negb sendable); reflexivity. }
+      rewrite Hd, (Hnd _ Hd), actions_eqb_refl. reflexivity.
+    - unfold env_fault_effective in Eenv. apply orb_false_iff in Eenv as [E1 E2].
+      unfold expected_obs. cbv zeta. rewrite E2.
+      assert (Hx : match f with Some (st, _) => if reaches_v st port0 hs d then [ALogExc] else port_spec_v port0 hs d ++ []
+                   | None => port_spec_v port0 hs d ++ [] end = port_spec_v port0 hs d).
+      { destruct f as [[st e]|]; [rewrite E1|]; apply List.app_nil_r. }
+      rewrite Hx. pose proof (port_spec_v_ok port0 hs d) as H.
+      inversion H; cbn [existsb is_log is_dead orb filter negb app List.length Nat.leb];
+        rewrite actions_eqb_refl; reflexivity. }
+  unfold port_check. cbv zeta. destruct f as [[st e]|]; [|exact Hgen].
+  destruct st; try exact Hgen.
+  unfold expected_obs. rewrite reaches_v_log. reflexivity.
 Qed.
 
 (* the behaviour before the repair: a write request from source port 0 is answered (attempt), the
